@@ -4,13 +4,19 @@ From SH Require Import Engine.Model Engine.Proofs.
 Import ListNotations.
 Open Scope Z_scope.
 
+Definition is_prefix_state (b : list lev) (o : Z) (v : list Z) : Prop :=
+  exists n, (n <= length b)%nat /\ bsize (firstn n b) = o /\ applyl (firstn n b) kv0 = v.
+
 Definition Pw (b : list lev) (e : Z * bool * ticket) : Prop :=
   match e with
   | (o, rw, TW i) => rw = false /\ (i < length b)%nat /\ bsize (firstn (S i) b) = o
-  | _ => True
+  | (_, rw, TR _ ro v) => rw = true /\ is_prefix_state b ro v
   end.
 Definition Pa (b : list lev) (c : Z) (t : ticket) : Prop :=
-  match t with TW i => (i < length b)%nat /\ bsize (firstn (S i) b) <= c | TR _ _ => True end.
+  match t with
+  | TW i => (i < length b)%nat /\ bsize (firstn (S i) b) <= c
+  | TR _ ro v => is_prefix_state b ro v
+  end.
 
 Definition InvB (s : st) : Prop :=
   Forall (Pw (bl s)) (waitq s) /\ Forall (Pa (bl s) (comm s)) (acked s).
@@ -18,18 +24,27 @@ Definition InvB (s : st) : Prop :=
 Lemma firstn_app_le {A} n (b x : list A) : (n <= length b)%nat -> firstn n (b ++ x) = firstn n b.
 Proof. intro H. rewrite firstn_app. replace (n - length b)%nat with 0%nat by lia. simpl. apply app_nil_r. Qed.
 
+Lemma is_prefix_state_app b x o v : is_prefix_state b o v -> is_prefix_state (b ++ x) o v.
+Proof.
+  intros (n & L & E1 & E2). exists n. rewrite app_length. split; [lia|].
+  rewrite firstn_app_le by lia. split; assumption.
+Qed.
+
 Lemma Pw_app b x e : Pw b e -> Pw (b ++ x) e.
 Proof.
-  destruct e as [[o rw] [i|id o']]; simpl; auto. intros (R & L & E).
-  rewrite app_length. split; [exact R|]. split; [lia|]. rewrite <- E. f_equal.
-  change (firstn (S i) (b ++ x) = firstn (S i) b). apply firstn_app_le. lia.
+  destruct e as [[o rw] [i|id o' v]]; simpl.
+  - intros (R & L & E). rewrite app_length. split; [exact R|]. split; [lia|]. rewrite <- E. f_equal.
+    change (firstn (S i) (b ++ x) = firstn (S i) b). apply firstn_app_le. lia.
+  - intros (R & P). split; [exact R|]. apply is_prefix_state_app. exact P.
 Qed.
 
 Lemma Pa_app b x c t : Pa b c t -> Pa (b ++ x) c t.
 Proof.
-  destruct t as [i|id o']; simpl; auto. intros (L & E). rewrite app_length. split; [lia|].
-  replace (match b ++ x with [] => [] | a :: l => a :: firstn i l end) with (firstn (S i) (b ++ x)) by reflexivity.
-  rewrite firstn_app_le by lia. exact E.
+  destruct t as [i|id o' v]; simpl.
+  - intros (L & E). rewrite app_length. split; [lia|].
+    replace (match b ++ x with [] => [] | a :: l => a :: firstn i l end) with (firstn (S i) (b ++ x)) by reflexivity.
+    rewrite firstn_app_le by lia. exact E.
+  - apply is_prefix_state_app.
 Qed.
 
 Lemma Pa_mono b c c' t : c <= c' -> Pa b c t -> Pa b c' t.
@@ -45,8 +60,10 @@ Proof.
     + split; [exact F|constructor].
     + destruct (notify c q) as [a r]. simpl in *. destruct IH as [IH1 IH2]. split; [exact IH1|].
       constructor; [|exact IH2].
-      destruct t as [i|id o']; simpl; auto. simpl in Fe. destruct Fe as (R & L & E). subst rw. simpl in G.
-      apply gtb_false in G. split; [exact L|lia].
+      destruct t as [i|id o' v]; simpl.
+      * simpl in Fe. destruct Fe as (R & L & E). subst rw. simpl in G.
+        apply gtb_false in G. split; [exact L|lia].
+      * simpl in Fe. destruct Fe as (_ & P). exact P.
 Qed.
 
 Lemma InvB_frame s s' : bl s' = bl s -> comm s' = comm s -> waitq s' = waitq s -> acked s' = acked s -> InvB s -> InvB s'.
@@ -134,12 +151,22 @@ Proof.
     eapply InvB_frame; [| | | |exact IB5]; reflexivity.
 Qed.
 
-Lemma InvB_do_read s : InvB s -> InvB (do_read s).
+Lemma dbt_prefix_state s : InvA s -> is_prefix_state (bl s) (off (dbt s)) (kv (dbt s)).
 Proof.
-  intros [W A]. unfold do_read. destruct (mode s); [|split; assumption].
+  intro IA. destruct (ia_dec s IA) as (a0 & b0 & c0 & Ebl & Edbc & Edbt & Sc & Ee & Da).
+  exists (length (a0 ++ b0)).
+  assert (Hf : firstn (length (a0 ++ b0)) (bl s) = a0 ++ b0).
+  { rewrite Ebl. replace (a0 ++ b0 ++ c0 ++ qlevs (queue s)) with ((a0 ++ b0) ++ c0 ++ qlevs (queue s)) by (rewrite <- app_assoc; reflexivity).
+    rewrite firstn_app, firstn_all, Nat.sub_diag. simpl. apply app_nil_r. }
+  rewrite Hf, Edbt. simpl. split; [rewrite Ebl, !app_length; lia|]. split; reflexivity.
+Qed.
+
+Lemma InvB_do_read s : InvA s -> InvB s -> InvB (do_read s).
+Proof.
+  intros IA [W A]. pose proof (dbt_prefix_state s IA) as P. unfold do_read. destruct (mode s); [|split; assumption].
   destruct (waitq s) eqn:E; split; simpl; auto.
-  - apply Forall_app. split; [exact A|repeat constructor].
-  - apply Forall_app. split; [rewrite E; exact W|repeat constructor].
+  - apply Forall_app. split; [exact A|]. constructor; [exact P|constructor].
+  - apply Forall_app. split; [rewrite E; exact W|]. constructor; [split; [reflexivity|exact P]|constructor].
 Qed.
 
 Lemma deliver_core_frame l t s :
@@ -157,7 +184,7 @@ Proof.
   destruct o as [l f| |n|n| |l t|keep]; simpl.
   - apply InvB_do_write; assumption.
   - apply InvB_do_read; assumption.
-  - destruct (negb (replica s) && (durable s <=? bsize (firstn n (bl s)))); [|exact IB].
+  - destruct (durable s <=? bsize (firstn n (bl s))); [|exact IB].
     eapply InvB_frame; [| | | |exact IB]; reflexivity.
   - destruct (bsize (firstn n (bl s)) <=? durable s); [|exact IB].
     apply InvB_commit_cb; [exact (ia_wfq s IA)|exact IB].
